@@ -37,7 +37,7 @@ CONSTANTS
   SmpChoices,     \* subset of BOOLEAN for roots
   CrossThread,    \* may a thread use span handles created by another thread?
   TrackCut,       \* feed ring pushes / drains to the ghost (needed for the cut signature)
-  FixRecv, FixFifo, FixCancelDefault, FixEmptyToken, FixStackFull, FixForceStart,
+  FixRecv, FixFifo, FixCancelDefault, FixEmptyToken, FixStackFull, FixForceStart, FixReentrant,
   None
 
 Zero == 0
@@ -187,6 +187,29 @@ Root(t, tr, smp) ==
            Rt(t, "root") @@ (IF rec THEN [h |-> h, cid |-> cid, id |-> h] ELSE [h |-> h]))
   /\ UNCHANGED <<stack, hs, lsets, natt>>
 
+\* a root created from an extracted context: SpanContext::from_span(src) (src a span handle), or
+\* SpanContext::current_local_parent() (src = 0); w3c: through encode / decode of a traceparent
+RootCtx(t, src, w3c) ==
+  LET h == New(t)
+      tok == IF src = 0 THEN (IF stack[t] # <<>> /\ ~Top(t).lc THEN CurTok(Top(t)) ELSE <<>>)
+             ELSE IF spans[src].st = "live" THEN Issue(src) ELSE <<>>
+      some == tok # <<>>
+      ctx == IF some THEN [some |-> TRUE, tr |-> tok[1].tr, id |-> tok[1].par, smp |-> tok[1].smp] ELSE [some |-> FALSE]
+      rec == Enabled /\ Ready /\ some
+      cid == IF rec /\ ctx.smp THEN h ELSE NS
+      start == [k |-> "start", c |-> cid]
+      boom == src = 0 /\ stack[t] # <<>> /\ ~Top(t).lc /\ tok = <<>> /\ ~FixEmptyToken IN
+  /\ NRoots < MaxRoots /\ NSpans < MaxSpans
+  \* without a context the caller creates nothing
+  /\ spans' = IF rec THEN A!Put(spans, h, [tok |-> <<[tr |-> ctx.tr, par |-> ctx.id, cid |-> cid, smp |-> ctx.smp]>>, cid |-> cid, props |-> <<>>, st |-> "live", own |-> t])
+               ELSE A!Put(spans, h, [tok |-> <<>>, cid |-> 0, props |-> <<>>, st |-> "noop", own |-> t])
+  /\ Bump(t)
+  /\ Begin(t, IF rec /\ ctx.smp THEN <<IF FixForceStart THEN Force(start) ELSE Send(start)>> ELSE <<>>,
+           Ev(t, "rootctx") @@ [h |-> h, w3c |-> w3c] @@ (IF src = 0 THEN A!EmptyFn ELSE [src |-> src]),
+           (IF boom THEN [panic |-> "index out of bounds"] ELSE A!EmptyFn) @@
+           Rt(t, "rootctx") @@ [ctx |-> ctx] @@ (IF rec THEN [h |-> h, cid |-> cid, id |-> h] ELSE [h |-> h]))
+  /\ UNCHANGED <<stack, hs, lsets, natt>>
+
 Child(t, ps, multi) ==
   LET h == New(t)
       one == ps[1]
@@ -299,24 +322,32 @@ LEvent(t, withp) ==
   /\ Begin(t, <<>>, Ev(t, "levent") @@ [evt |-> evt], Rt(t, "levent"))
   /\ UNCHANGED <<spans, lsets, hs>>
 
-LProps(t) ==
-  LET n == New(t) ok == LineOk(t) /\ HasRoom(t) IN
+\* `re`: the property closure itself calls into fastrace (current_local_parent()), as a closure that
+\* logs through a fastrace-aware logger or calls a #[trace] function does
+LProps(t, re) ==
+  LET n == New(t) ok == LineOk(t) /\ HasRoom(t)
+      boom == re /\ LineOk(t) /\ ~FixReentrant IN
   /\ AttOk /\ natt' = natt + 1
   /\ stack' = IF ok THEN SetTop(t, [Top(t) EXCEPT !.q = Append(@, [id |-> 0, par |-> Top(t).nxt, k |-> "props", n |-> 0, props |-> <<KV(n)>>])]) ELSE stack
   /\ Bump(t)
-  /\ Begin(t, <<>>, Ev(t, "lprops") @@ [kvs |-> <<KV(n)>>], Rt(t, "lprops") @@ [kvs |-> <<KV(n)>>, cc |-> IF LineOk(t) THEN 1 ELSE 0])
+  /\ Begin(t, <<>>, Ev(t, "lprops") @@ [kvs |-> <<KV(n)>>, re |-> re],
+           (IF boom THEN [panic |-> "already borrowed: BorrowMutError"] ELSE A!EmptyFn) @@
+           Rt(t, "lprops") @@ [kvs |-> <<KV(n)>>, cc |-> IF LineOk(t) THEN 1 ELSE 0])
   /\ UNCHANGED <<spans, lsets, hs>>
 
 \* LocalSpan::with_properties on the innermost local span the caller holds
-LWith(t) ==
-  LET x == TopH(t) n == New(t) IN
+LWith(t, re) ==
+  LET x == TopH(t) n == New(t)
+      boom == re /\ x.live /\ ~FixReentrant IN
   /\ hs[t] # <<>> /\ x.k = "l"
   /\ AttOk /\ natt' = natt + 1
   /\ stack' = IF x.live
               THEN SetTop(t, [Top(t) EXCEPT !.q = [j \in DOMAIN @ |-> IF @[j].id = x.n THEN [@[j] EXCEPT !.props = Append(@, KV(n))] ELSE @[j]]])
               ELSE stack
   /\ Bump(t)
-  /\ Begin(t, <<>>, Ev(t, "lwith") @@ [l |-> x.n, kvs |-> <<KV(n)>>], Rt(t, "lwith") @@ [l |-> x.n, kvs |-> <<KV(n)>>, cc |-> IF x.live THEN 1 ELSE 0])
+  /\ Begin(t, <<>>, Ev(t, "lwith") @@ [l |-> x.n, kvs |-> <<KV(n)>>, re |-> re],
+           (IF boom THEN [panic |-> "already borrowed: BorrowMutError"] ELSE A!EmptyFn) @@
+           Rt(t, "lwith") @@ [l |-> x.n, kvs |-> <<KV(n)>>, cc |-> IF x.live THEN 1 ELSE 0])
   /\ UNCHANGED <<spans, lsets, hs>>
 
 \* Span::add_event / add_properties: a pseudo child span submitted at once
@@ -548,6 +579,7 @@ LiveH(t) == {h \in Handles(t) : spans[h].st = "live"}
 \* operations TLC may choose for thread t
 MenuOp(t) ==
   \/ M("root") /\ \E tr \in 1..MaxTraces, smp \in SmpChoices : Root(t, tr, smp)
+  \/ M("rootctx") /\ \E h \in Handles(t) \cup {0}, w \in BOOLEAN : RootCtx(t, h, w)
   \/ M("child") /\ \E h \in Handles(t) : Child(t, <<h>>, FALSE)
   \/ M("child2") /\ \E h1, h2 \in Handles(t) : h1 < h2 /\ Child(t, <<h1, h2>>, TRUE)
   \/ M("childm") /\ \E h \in Handles(t) : spans[h].st = "noop" /\ Child(t, <<h>>, TRUE)
@@ -561,8 +593,10 @@ MenuOp(t) ==
   \/ M("lenter") /\ LEnter(t)
   \/ M("lexit") /\ LExit(t)
   \/ M("levent") /\ \E w \in BOOLEAN : LEvent(t, w)
-  \/ M("lprops") /\ LProps(t)
-  \/ M("lwith") /\ LWith(t)
+  \/ M("lprops") /\ LProps(t, FALSE)
+  \/ M("lwith") /\ LWith(t, FALSE)
+  \/ M("lpropsre") /\ LProps(t, TRUE)
+  \/ M("lwithre") /\ LWith(t, TRUE)
   \/ M("sevent") /\ \E h \in Handles(t) : SAttach(t, h, "event", FALSE)
   \/ M("sprops") /\ \E h \in Handles(t) : SAttach(t, h, "props", FALSE)
   \/ M("swith") /\ \E h \in Handles(t) : SWith(t, h)
@@ -572,7 +606,7 @@ MenuOp(t) ==
   \/ M("ctxl") /\ CtxL(t)
   \/ M("ctxs") /\ \E h \in Handles(t) : CtxS(t, h)
   \* somebody must remain to finish the spans that are still alive
-  \/ M("exit") /\ ((\E u \in Threads \ {t} : tst[u] = "live") \/ \A h \in DOMAIN spans : spans[h].st # "live") /\ Exit(t)
+  \/ M("exit") /\ ((\E u \in Threads \ {t} : tst[u] = "live") \/ \A h \in DOMAIN spans : ~Usable(h)) /\ Exit(t)
 
 \* a fixed program step [op, args...]; handles are given as positions in creation order (nid values)
 Step(t, s) ==
@@ -584,7 +618,7 @@ Step(t, s) ==
     [] s.op = "lenter" -> LEnter(t)
     [] s.op = "lexit"  -> LExit(t)
     [] s.op = "levent" -> LEvent(t, FALSE)
-    [] s.op = "lprops" -> LProps(t)
+    [] s.op = "lprops" -> LProps(t, FALSE)
     [] s.op = "sevent" -> SAttach(t, s.h, "event", FALSE)
     [] s.op = "sprops" -> SAttach(t, s.h, "props", FALSE)
     [] s.op = "cancel" -> Cancel(t, s.h)
@@ -627,7 +661,7 @@ Teardown(t) ==
      THEN CASE TopH(t).k = "l" -> LExit(t)
             [] TopH(t).k = "g" -> DropG(t)
             [] TopH(t).k = "c" -> LcDrop(t)
-     ELSE LET S == {h \in DOMAIN spans : spans[h].st = "live" /\ (spans[h].own = t \/ tst[spans[h].own] = "dead")} IN
+     ELSE LET S == {h \in DOMAIN spans : Usable(h) /\ (spans[h].own = t \/ tst[spans[h].own] = "dead")} IN
           IF S # {} THEN DropSpan(t, CHOOSE x \in S : \A y \in S : y <= x)   \* children before parents
           ELSE Exit(t)     \* every thread ends by exiting: parked commands are flushed
   /\ UNCHANGED <<reg, cph, ci, batch, cown, active, nops, ncyc, nfl, pc, quiet>>
